@@ -28,7 +28,7 @@ type gen struct {
 	count map[string]int
 }
 
-var pool = []string{"a", "b", "c", "d"}
+var pool = []string{"a", "b", "c", "d", "a.tmp", "b~"} // incl. names an implementation might take for its own temporaries
 var chunkPool = []int{1, 2, 3, 7, 4096}
 
 func (g *gen) bytes(n int) []byte {
@@ -178,6 +178,18 @@ func (g *gen) srcTree(small bool) *treeB {
 			}
 		}
 		t.insert(p, false, c)
+	}
+	// neighbours whose names differ by a suffix an implementation might use for its own temporaries, the
+	// suffixed one created (and therefore listed and copied) first
+	if g.r.Chance(1, 4) {
+		dir := ""
+		if g.r.Chance(1, 2) {
+			dir = g.r.Pick(pool[:3]) + "/"
+		}
+		suf := g.r.Pick([]string{".tmp", "~", ".bak", ".part"})
+		t.insert(dir+"d"+suf, false, g.bytes(1+g.r.Intn(6)))
+		t.insert(dir+"d", false, g.bytes(1+g.r.Intn(6)))
+		g.count["src:temp-neighbours"]++
 	}
 	return t
 }
